@@ -16,6 +16,15 @@ CHECKS = {
         "random long histories recorded from the real object are validated against the same predicates.",
         "Bounded: <=3 records, depth 3/4, small value pools; ids are mapped to creation order; patches of id/method names excluded.",
     ),
+    "C08": (
+        "DESIGN.md 5/C08",
+        "TLC exhaustive bounded model of the tracker (Transmission.tla) + transition tours replayed on a real Terminal + TLC trace validation with a property monitor",
+        "TLC explores every burst history of the tracker design model to a depth bound (17-letter alphabet, one and two timeslots, "
+        "end_all) against the property monitor and two structural invariants; every explored edge is covered by a transition tour "
+        "replayed with concrete bursts on a real Terminal with recording/raising observers; random long histories are recorded from "
+        "the real Terminal; TLC judges every recorded step (events, labels, sequence numbers, stream ids, outcome).",
+        "Burst content is abstract in the model (classes); voice bursts with RC-sync/reserved sync are outside the alphabet; secrets.token_bytes replaced by a counter; rx wrap at 256 only via long random histories.",
+    ),
 }
 
 NOT_YET = {}
